@@ -120,6 +120,7 @@ InsText(ins) ==
     CASE ins.a \in {"push", "pop", "flip"} -> "stack " \o ins.a \o "=" \o JoinInts(ins.args, ",")
       [] ins.a \in {"roll", "unroll"}      -> "stack " \o ins.a \o "=" \o ToString(ins.m) \o "," \o ToString(ins.n)
       [] ins.a = "swap"                    -> "stack swap"
+      [] ins.a = "drop"                    -> "stack drop"
       [] ins.a = "lpush"                   -> "push " \o FlagText(ins.flags)
       [] ins.a = "lpop"                    -> "pop " \o FlagText(ins.flags)
 
